@@ -437,6 +437,12 @@ def run(ck):
                     g = sorted(set([v for v in g if v != tt] + [tt]))
                     kind = "list" if kind.endswith("_int") else kind
                     hit = True
+            if not hit and exact and len(g) > 2 and rng.random() < 0.12:
+                # a requested time given twice (two observation schedules merged): one row per REQUESTED time
+                i = int(rng.integers(1, len(g) - 1))
+                g = g[:i + 1] + [g[i]] + g[i + 1:]
+                if kind.startswith("array"):
+                    kind = ["list", "tuple"][int(rng.integers(0, 2))]
             case = dict(spec=spec, seed=seed, grid=g, kind=kind, exact=exact, n=n, pre_tau=pre_tau, _model=m)
             try:
                 raws = raw_runs(m, g[-1], n, exact, seed, pre_tau)
@@ -476,6 +482,8 @@ def run(ck):
                                               file="c15_cases", error="non-integer or mis-shaped gridded output, first for %s"
                                               % json.dumps(strip(case))))
                     continue
+                if len(set(g)) != len(g):
+                    continue                     # repeated times: judged directly above, outside the Coq model's grids
                 h = bool(hits(raw, g))
                 hit_cases += int(h)
                 kcases.append(dict(exact=exact, X=int_rows(raw[0]), J=[[int(v) for v in row] for row in raw[1]] if raw[1].ndim == 2 else [],
